@@ -168,6 +168,8 @@ def main():
 
     known = load_known(prop)
     known_keys = [k["key"] for k in known]
+    # diagnostic aid (never used by the registered commands): look past a violation class of a *mutated* tree
+    known_keys += [k for k in (os.environ.get("VERIF_EXTRA_KNOWN_KEYS") or "").split(",") if k]
     parts = plan(prop, args.tier)
     total_by_sub = {}
     total = {}
